@@ -338,6 +338,11 @@ def gen_cases(tier, seed):
         [U, ("MKD", "/a/f1/under", None), ("MKD", "/top.txt/x/y", None), ("MKD", "/nope/x", None), ("RMD", "/a", None), ("DELE", "/a/sub", None)],
         [U, ("RMD", "/e", None), ("RMD", "/e", None), ("MKD", "/e/x", None), ("MKD", "/e", None), ("MKD", "/e", None)],
         [U, E, ("MLSD", "/a/f1", "before"), E, ("LIST", "/top.txt", "after"), E, ("MLSD", "/e", "before")],
+        # a restarted upload leaves the file's write position inside the file: what comes next appends at the end all the same
+        [U, E, ("REST", "2", None), ("STOR", "/top.txt", "before"), E, ("APPE", "/top.txt", "before"), E, ("APPE", "/top.txt", "after"),
+         E, ("RETR", "/top.txt", "before")],
+        [U, E, ("REST", "1", None), ("APPE", "/a/f1", "before"), E, ("APPE", "/a/f1", "before"), E, ("REST", "3", None), ("RETR", "/a/f1", "before"),
+         E, ("STOR", "/a/f1", "before"), E, ("RETR", "/a/f1", "before")],
     ]
     for j, seq in enumerate(targeted):
         plans.append({"kind": "ftp", "seed": seed + j, "length": 0, "seq": [list(x) for x in seq], "backends": ["memory", "pathio", "async"]})
